@@ -124,6 +124,18 @@ fn strategies(cfg: &Cfg) -> Vec<Strategy> {
             v.push(Strategy::ForgedFirstLayer(e));
         }
     }
+    // an honest prover working in 2 / 4 partitions: every layer tree must have at least that many rows
+    let mut min_rows = usize::MAX;
+    let mut d = cfg.n;
+    for _ in 0..l {
+        d /= cfg.k;
+        min_rows = min_rows.min(d);
+    }
+    for e in [1u8, 2] {
+        if l >= 1 && min_rows >= (1 << e) {
+            v.push(Strategy::Partitioned(e));
+        }
+    }
     if l >= 2 {
         v.push(Strategy::DuplicateLayer);
         v.push(Strategy::SwapLayers);
@@ -292,6 +304,7 @@ fn strat_class(s: &Strategy) -> &'static str {
         Strategy::DuplicateLayer => "duplicated layer",
         Strategy::SwapLayers => "swapped layers",
         Strategy::ConstantTail(_) => "constant later layers instead of folded ones",
+        Strategy::Partitioned(_) => "honest prover working in 2 / 4 partitions (partitioned leaf layout, declared in the proof)",
         Strategy::ForgedFirstLayer(_) => "first-layer rows forged after seeing the queries (declared partition counts 1, 2, 2^62, 2^63)",
     }
 }
